@@ -297,6 +297,11 @@ def run_case(case):
                 _check_limits(res, mdl, W, init, H)
             # 5. batched replica (cross-check) -----------------------------------------
             tolB = 1e-12 * max(1.0, float(onp.max(onp.abs(new))))
+            # two valid evaluations of an eigenvector-based tensor function differ by the conditioning of the eigenvectors,
+            # ~ eps / (relative eigenvalue gap); below gap 1e-8 the D8 class takes over
+            gmin = min(g[0] for g in gaps)
+            if gmin < 1e-2:
+                tolB += 256 * 2.220446049250313e-16 / max(gmin, 1e-8) * max(1.0, float(onp.max(onp.abs(new))))
             dB = float(onp.max(onp.abs(stB[i] - new))) if onp.all(onp.isfinite(stB[i])) else float("nan")
             mech = D8_KEY if rep else None
             res.count("batched_steps")
